@@ -73,6 +73,37 @@ func TestMakeSeeds(t *testing.T) {
 		}
 		write(t, dir, "seed-two-in-one-block.json", "seed", "C12/seed", c)
 	}
+
+	// 3. witness (consequence of the reward-year over-distribution, see C13 fixed-short-forecast): reward
+	// options with a 2-block cycle, one halt of 200 days in block 6; block 9 opens a cycle in a reward
+	// year that is already over-distributed: the reward hook returns early and the reward withdrawal of
+	// block 5, due in block 9, is never paid (the undelegation of block 5 is).
+	{
+		p := sim.DefaultParams()
+		p.Seed = "c12-reward-withdrawal-lost"
+		p.RewardCycle, p.RewardEstSecs, p.RewardCloseWin = 2, 10, 30
+		p.RewardYearShares = []string{"1000000000000000000000"}
+		p.RewardBurnout = "50000000000000000"
+		p.RewardInterval = 1
+		p.Evidence.BlockVotesDiff = 1000
+		p.PreDelegations = []sim.PreDeleg{{User: 0, Amount: olt(390000).String()}}
+		u := sim.BuildGenesis(p).U.Users
+		c := &Case{Params: p, Profile: "hand:reward-withdrawal-due-in-a-failed-reward-block"}
+		gap := func(g int64, txs ...txgen.Tx) {
+			mk(c, txs...)
+			c.Steps[len(c.Steps)-1].Spec.GapSecs = g
+		}
+		for h := 1; h <= 4; h++ {
+			gap(5)
+		}
+		gap(5, txgen.DelegWithdrawRewards(u[0], u[0].Addr, txgen.Amt("OLT", big.NewInt(1000)), fee, "w1"),
+			txgen.Undelegate(u[0], u[0].Addr, txgen.Amt("OLT", big.NewInt(77)), fee, "u1"))
+		gap(200 * 86400)
+		for h := 7; h <= 14; h++ {
+			gap(1)
+		}
+		write(t, dir, "kf-reward-withdrawal-lost.json", "maturity-credit", "C12/maturity-credit/reward-withdrawal-not-paid-in-a-block-without-reward-processing", c)
+	}
 }
 
 func write(t *testing.T, dir, name, oracle, sig string, c *Case) {
